@@ -329,10 +329,10 @@ class Cluster(object):
     def _conf(self, nid):
         c = self.cfg
         kw = dict(autoTick=False,
-                  appendEntriesPeriod=T_PERIOD,
+                  appendEntriesPeriod=c.get('period', T_PERIOD),
                   raftMinTimeout=T_ELMIN, raftMaxTimeout=T_ELMAX,
                   connectionTimeout=T_ELMAX,
-                  leaderFallbackTimeout=T_FALLBACK,
+                  leaderFallbackTimeout=c.get('fallback', T_FALLBACK),
                   appendEntriesUseBatch=c.get('use_batch', True),
                   appendEntriesBatchSizeBytes=c.get('batch', 2 ** 16),
                   logCompactionMinEntries=c.get('compact_min', 10 ** 9),
@@ -455,6 +455,8 @@ class Cluster(object):
             return act[1] in N and not N[act[1]].alive and N[act[1]].voter and not self.cfg.get('journal')
         if k == 'Stop':
             return act[1] in N and N[act[1]].alive
+        if k == 'Assert':
+            return True
         if k == 'Crash':
             return act[1] in N and N[act[1]].alive and bool(self.cfg.get('journal'))
         if k == 'KillAt':
@@ -486,7 +488,7 @@ class Cluster(object):
         node = None
         if k == 'Tick':
             node = self.nodes[act[1]]
-            node.clock += ADV[act[2]]
+            node.clock += ADV[act[2]] if act[2] in ADV else float(act[2])      # a scale, or an explicit amount of time
             node.send_cut = int(act[3]) if len(act) > 3 else DEFAULT_CUT
             self._enter(node, lambda: node.obj.doTick(0.0), 'tick')
         elif k == 'Deliver':
@@ -535,6 +537,8 @@ class Cluster(object):
             self._start(act[1], list(act[2]), voter=True)
         elif k == 'Stop':
             self._stop(act[1])
+        elif k == 'Assert':
+            pass
         elif k == 'Crash':
             self._stop(act[1], keep_files=True)
         elif k == 'KillAt':
@@ -735,7 +739,7 @@ class Cluster(object):
         mat = {nm(n): int(v) for n, v in g('raftMatchIndex').items()}
         fresh = []
         if role == 'L':
-            dl = now - T_FALLBACK
+            dl = now - self.cfg.get('fallback', T_FALLBACK)
             fresh = sorted(nm(n) for n, t in g('lastResponseTime').items() if t > dl)
         q = []
         for cmd, cb in list(getattr(g('commandsQueue'), '_FastQueue__queue')):
